@@ -23,6 +23,8 @@ def expr_forms():
         ('min', MinMax('min', x, y), lambda a, b: min(a, b)),
         ('max', MinMax('max', x, Bin('+', y, K(1), 6)), lambda a, b: max(a, (b + 1) % 6)),
         ('nested', Bin('+', MinMax('min', x, K(2)), Bin('*', y, K(2), 5), 5), lambda a, b: (min(a, 2) + (b * 2) % 5) % 5),
+        ('closure', ClosureApp('x', Bin('+', x, y, 6), Bin('+', x, K(2), 6)), lambda a, b: (((a + 2) % 6) + b) % 6),
+        ('match', MatchE(y, 2, x, 'x', Bin('+', x, K(1), 6)), lambda a, b: a if b == 2 else (b + 1) % 6),
         ('let_in', LetIn('x', Bin('+', x, K(1), 6), Bin('+', Bin('*', x, K(2), 6), y, 6)), lambda a, b: ((((a + 1) % 6) * 2) % 6 + b) % 6),
         ('let_in_nested', LetIn('y', Bin('+', y, x, 5), MinMax('max', y, LetIn('x', Bin('*', x, K(3), 5), Bin('+', x, y, 5)))),
          lambda a, b: max((b + a) % 5, ((a * 3) % 5 + (b + a) % 5) % 5)),
